@@ -8,6 +8,7 @@ def check(ctx):
             check_grid(A, R, prefix=tr)
             if name == "vectorized_ltf_plan": check_bmin_mask(A, R, prefix=tr)
             elif name != "new_ltf_plan": check_bmin_guard(A, R, prefix=tr)
+            else: check_bmin_tested(A, R, prefix=tr)
         for_paths(ctx, ctx.repo, name, per)
     check_lpsd_wrapper(ctx, ctx.repo)
     check_rounding_helper(ctx, ctx.repo)
